@@ -14,7 +14,9 @@ CONSTANTS Pool,      \* sequence of species records a session can choose from
           MaxCoef,
           GasTest,   \* "all" | "reactants"
           LoneBulk,  \* TRUE: a bulk species may react without an adsorbate of its site
-          SDelims, RDelims    \* species / reaction delimiters tried by ReadBack
+          SDelims, RDelims,   \* species / reaction delimiters tried by ReadBack
+          RunLists,  \* run lists (sequences of <<T, P>>, T and P small indices) tried by RunsInv
+          EvalMode   \* "each" (required) | "memoT" (one evaluation per distinct temperature)
 
 VARIABLES sel,       \* chosen species: set of Pool indices
           rxset,     \* reactions added so far (set; the file order is SetToSeq's)
@@ -79,6 +81,14 @@ WriteTube(M, F) ==
    LET idx == SelectSeq([i \in DOMAIN M.sp |-> i], LAMBDA i : M.sp[i].name \in F)
    IN [count |-> Len(idx), rows |-> [k \in DOMAIN idx |-> [name |-> M.sp[idx[k]].name, tag |-> TagOf(M, idx[k])]]]
 
+\* EAs.inp / EAg.inp hold one entry per (reaction, run).  The entry of run k is the activation
+\* method evaluated at the conditions of run k; symbolically, the value "evaluated at <<T, P>>" IS
+\* the pair <<T, P>> (a pressure-dependent method separates any two different pairs).
+\* "memoT" re-uses the first evaluation made at the same temperature.
+FirstWithT(runs, k) == CHOOSE j \in 1..k : runs[j][1] = runs[k][1] /\ \A i \in 1..(j - 1) : runs[i][1] # runs[k][1]
+EARowVals(mode, runs) == [k \in DOMAIN runs |-> IF mode = "each" THEN runs[k] ELSE runs[FirstWithT(runs, k)]]
+RunsOK(runs, vals) == Len(vals) = Len(runs) /\ \A k \in DOMAIN runs : vals[k] = runs[k]
+
 \* ---- session
 PoolOK(S) == /\ \A a, b \in S : a # b => Pool[a].name # Pool[b].name
              /\ \A a, b \in S : (a # b /\ Pool[a].bulk /\ Pool[b].bulk) => Pool[a].site # Pool[b].site
@@ -127,6 +137,9 @@ TubeInv == rxset = {} => LET M == Mech IN
               \A F \in SUBSET ({M.sp[i].name : i \in DOMAIN M.sp} \cup {Stranger}) :
                  LET d == WriteTube(M, F) IN TubeOK(M, F, d) /\ CountOK(d)
 DistinctInv == Written => DistinctRx(Mech)
+\* every entry of an EA row is evaluated at the conditions of its own run, for every run list
+\* (repeated temperatures with different pressures, repeated pairs, equal pressures included)
+RunsInv == rxset = {} => \A runs \in RunLists : RunsOK(runs, EARowVals(EvalMode, runs))
 
 \* S->C: one record per written session, printed for replay into the real writers
 Expected(M, D) ==
@@ -137,5 +150,6 @@ Expected(M, D) ==
                   ads |-> [a \in DOMAIN D.surf.sites[k].ads |-> D.surf.sites[k].ads[a][1]]]],
     bulk |-> D.surf.bulk,
     neag |-> D.eag.count, neas |-> D.eas.count]
-EmitCases == Written => PrintT(<<"CASE", Mech, Expected(Mech, Docs)>>)
+EmitCases == /\ Written => PrintT(<<"CASE", Mech, Expected(Mech, Docs)>>)
+             /\ (rxset = {} /\ sel = {1}) => PrintT(<<"RUNS", SetToSeq(RunLists)>>)
 =============================================================================
